@@ -35,7 +35,7 @@ func bytesI64(b []byte) []int64 {
 }
 
 func runPad(ctx *core.Ctx, in input) {
-	o := guard(callDeadline, func() ([]int64, error) {
+	o := guard("padding.PadPKCS7", callDeadline, func() ([]int64, error) {
 		out, err := padding.PadPKCS7(withCap(in.Data, in.Extra), in.Size)
 		return bytesI64(out), err
 	})
@@ -44,7 +44,7 @@ func runPad(ctx *core.Ctx, in input) {
 }
 
 func runUnpad(ctx *core.Ctx, in input) {
-	o := guard(callDeadline, func() ([]int64, error) {
+	o := guard("padding.UnpadPKCS7", callDeadline, func() ([]int64, error) {
 		out, err := padding.UnpadPKCS7(withCap(in.Data, in.Extra), in.Size)
 		return bytesI64(out), err
 	})
@@ -58,7 +58,7 @@ func runUnpad(ctx *core.Ctx, in input) {
 
 func runIso(ctx *core.Ctx, in input) {
 	s := string(in.Data)
-	o := guard(callDeadline, func() ([]int64, error) {
+	o := guard("time.ParseISO8601Duration", callDeadline, func() ([]int64, error) {
 		y, m, d, dur, rep, err := kittime.ParseISO8601Duration(s)
 		return []int64{int64(y), int64(m), int64(d), int64(dur), int64(rep)}, err
 	})
@@ -70,7 +70,7 @@ func runIso(ctx *core.Ctx, in input) {
 }
 
 func runJSON(ctx *core.Ctx, in input) {
-	o := guard(callDeadline, func() ([]int64, error) {
+	o := guard("encv1.json", callDeadline, func() ([]int64, error) {
 		switch in.Which {
 		case 0:
 			var c encv1.Cipher
@@ -118,7 +118,8 @@ func cronOracles(spec string) (zoneOK bool, dur *int64) {
 	return zoneOK, dur
 }
 
-const nextDeadline = 60 * time.Second
+// Next with an empty second set walks five years second by second (about 3.5 s of CPU unloaded)
+const slowNextDeadline = 120 * time.Second
 
 // replay / corpus inputs always run Next; the generator lowers this
 var slowNextBudget = 1 << 30
@@ -131,7 +132,7 @@ func runCron(ctx *core.Ctx, in input) {
 	spec := string(in.Data)
 	zoneOK, dur := cronOracles(spec)
 	var sched cron.Schedule
-	o := guard(callDeadline, func() ([]int64, error) {
+	o := guard("cron.Parse", callDeadline, func() ([]int64, error) {
 		s, err := cron.NewParser(opts).Parse(spec)
 		sched = s
 		return nil, err
@@ -144,16 +145,19 @@ func runCron(ctx *core.Ctx, in input) {
 	}
 	// Next on every schedule the parser accepted must return (five-year bound on the search).
 	// A schedule with an EMPTY second set (field ",") makes Next walk five years second by
-	// second (about 3 s of CPU, then the zero time): only [slowNextBudget] of those per run.
+	// second (about 3.5 s of CPU, then the zero time): only [slowNextBudget] of those per run
+	// (none in the quick tier: the other empty sets exercise the same bound in microseconds).
+	d := callDeadline
 	if ss, ok := sched.(*cron.SpecSchedule); ok && ss.Second&^(1<<63) == 0 {
 		if slowNextBudget <= 0 {
 			ctx.Sink.Count("A/cron-next/skipped-empty-second-set")
 			return
 		}
 		slowNextBudget--
+		d = slowNextDeadline
 	}
 	start := time.Unix(in.T, 0).UTC()
-	no := guard(nextDeadline, func() ([]int64, error) {
+	no := guard("cron.Next", d, func() ([]int64, error) {
 		t := sched.Next(start)
 		t2 := sched.Next(t)
 		if !t.IsZero() && !t2.IsZero() && !t2.After(t) {
@@ -165,6 +169,10 @@ func runCron(ctx *core.Ctx, in input) {
 	nin.Kind = "cron"
 	if no.cls == clsOk || no.cls == clsErr {
 		ctx.Sink.Count("A/cron-next/returned")
+		return
+	}
+	if no.cls == clsSkipped {
+		ctx.Sink.Count("A/cron-next/skipped-after-hangs")
 		return
 	}
 	emit(ctx, nin, "A", "", no, "cron-next", false, map[string]any{"next": true})
@@ -359,7 +367,7 @@ func genBytes(ctx *core.Ctx) {
 	// cron: every parser option set x a spec with the right / wrong number of fields; TZ forms;
 	// descriptors; grammar-derived and mutated fields
 	t0 := int64(1704067200) // 2024-01-01
-	slowNextBudget = 1
+	slowNextBudget = 0
 	if ctx.Thorough {
 		slowNextBudget = 12
 	}
@@ -396,6 +404,9 @@ func genBytes(ctx *core.Ctx) {
 		"@yearly", "@annually", "@monthly", "@weekly", "@daily", "@midnight", "@hourly", "@every 1h30m", "@every", "@every ", "@every -5s",
 		"@every 1ns", "@every 9223372036854775807ns", "@every 1e3s", "@", "@ daily", "@DAILY", "@reboot",
 		"0 0 31 2 *", "0 0 30 2 ?", "0 0 29 2 *", "* * * * * *", "* * * *", "", " ", "\t", "\x00", "* * * * \xff",
+		// unsatisfiable schedules whose month set contains January: an EMPTY set in each position
+		", * * * *", "* , * * *", "* * , * *", "* * * , *", "* * * * ,", "0 0 , 1 *", "0 0 31 2,4,6,9,11 *", "0 0 30,31 feb *", "0 0 , * ,",
+		"* * * * * ,", "0 0 0 , * *", "0 , * * * *", "0 0 , * * *", "0 0 0 * , *",
 		"59 23 31 12 6", "60 * * * *", "* 24 * * *", "* * 0 * *", "* * * 13 *", "* * * * 7", "*/61 * * * *", "0-59/60 * * * *"}
 	for _, s := range fixed {
 		for _, o := range stdOpts {
